@@ -297,3 +297,30 @@ Proof.
   - split; cbn; auto. discriminate.
   - apply (H pre post i m e E).
 Qed.
+
+(* ------------------------------------------------------------------ *)
+(* a Recv call that does not return a message never touches the tracker *)
+
+Theorem recv_cancel_frame : forall c s j s' o,
+  step c s (ARecvCancel j) = Some (s', o) ->
+  tk s' = tk s /\ sends s' = sends s /\ o = [ORecvDone j None (t_open (tk s))].
+Proof.
+  intros c s j s' o St. cbn [step] in St.
+  destruct (nth_error (recvs s) j) as [cl|]; [|discriminate].
+  destruct (r_st cl); try discriminate. destruct (blocked (r_w cl)); [|discriminate].
+  inversion St; subst. auto.
+Qed.
+
+Theorem recv_iter_frame : forall c s j s' o,
+  step c s (ARecvIter j) = Some (s', o) ->
+  (exists m, o = [ORecvDone j (Some m) (t_open (tk s))] /\ t_recv (tk s) = Some m) \/
+  (o = [] /\ tk s' = tk s /\ sends s' = sends s).
+Proof.
+  intros c s j s' o St. cbn [step] in St.
+  destruct (nth_error (recvs s) j) as [cl|]; [|discriminate].
+  destruct (r_st cl); try discriminate. destruct (runnable (r_w cl)); [|discriminate].
+  destruct (h_recv_iter (tk s)) as [t' [m|]] eqn:E; inversion St; subst.
+  - left. exists m. split; auto. unfold h_recv_iter in E.
+    destruct (t_recv (tk s)); [destruct (t_proc (tk s))|]; inversion E; reflexivity.
+  - right. auto.
+Qed.
